@@ -9,7 +9,8 @@
    strings     PreallocUb: for every input and every ub >= 64K the peak is >= mem ub + 1, so no
                pair (c, K) bounds the heap over the family SIZE(0..h): refuted
    lists       with the zero-width guard, at most |input bits| + 201 elements are ever held and
-               peak <= (esz + 24) * (|input bits| + 201) + 32; PreallocUb refuted as for strings *)
+               peak <= (esz + 24) * (|input bits| + 201) + 32; PreallocUb refuted as for strings
+   front ends  the same bounds for c15_str / c15_lst, the functions the check runs next to the C *)
 From Coq Require Import ZArith List Bool Arith Lia ZifyBool.
 From A1 Require Import Base.Bytes Rt.Types Rt.Comb Rt.Uper Rt.UperBits Rt.HeapBound.
 Import ListNotations.
@@ -109,7 +110,7 @@ Section StrErase.
   Qed.
 
   (* a policy changes no decoded value: the instrumented decoder IS the reference decoder *)
-  Theorem str_dec_erase pol s bs : fst (str_dec item mem true pol s bs) = get_sized item s bs.
+  Theorem str_dec_erase pol s bs : fst (str_dec item item mem true pol s bs) = get_sized item s bs.
   Proof.
     assert (R : forall lo hi m bs0, fst (str_root item mem true pol lo hi m bs0) =
       (if constrained hi then
@@ -136,7 +137,7 @@ Section StrErase.
   Qed.
 
   Corollary str_policy_same_values s bs :
-    fst (str_dec item mem true PreallocUb s bs) = fst (str_dec item mem true PerFragment s bs).
+    fst (str_dec item item mem true PreallocUb s bs) = fst (str_dec item item mem true PerFragment s bs).
   Proof. rewrite !str_dec_erase. reflexivity. Qed.
 
   Lemma str_frags_peak_mono : forall fuel m buf size bs,
@@ -154,7 +155,7 @@ Section StrErase.
   Qed.
 End StrErase.
 
-Section StrBound.
+Section StrFrags.
   Context {A : Type}.
   Variable item : list bool -> option (A * list bool).
   Variable mem : Z -> Z.
@@ -204,6 +205,19 @@ Section StrBound.
     destruct (str_frags item mem f m1 (Some nb) (size + mem n) r') as [[[y r'']|] m2]; exact G.
   Qed.
 
+End StrFrags.
+
+Section StrBound.
+  Context {A : Type}.
+  Variables item item_x : list bool -> option (A * list bool).
+  Variable mem : Z -> Z.
+  Variables w U : Z.
+  Hypothesis Hw : 1 <= w.
+  Hypothesis HU : 0 <= U.
+  Hypothesis Hitem : forall bs a r, item bs = Some (a, r) -> zlen r + w <= zlen bs.
+  Hypothesis Hitem_x : forall bs a r, item_x bs = Some (a, r) -> zlen r + w <= zlen bs.
+  Hypothesis Hmem : forall n, 0 <= n -> 0 <= mem n <= U * n.
+
   Definition scon_ok (s : scon) : Prop :=
     match s with
     | SCon lo (Some h) _ => 0 <= lo <= h
@@ -212,14 +226,15 @@ Section StrBound.
 
   (* THE BOUND: the constant mentions neither bound of the SIZE constraint *)
   Theorem str_heap_frag_bound chk s bs : scon_ok s ->
-    w * m_peak (snd (str_dec item mem chk PerFragment s bs)) <= 2 * U * zlen bs + w * (3 * 65536 * U + 2).
+    w * m_peak (snd (str_dec item item_x mem chk PerFragment s bs)) <= 2 * U * zlen bs + w * (3 * 65536 * U + 2).
   Proof.
     intros Hs.
     assert (ZB : forall l : list bool, 0 <= 2 * U * zlen l).
     { intros l. pose proof (zlen_nonneg l). apply Z.mul_nonneg_nonneg; lia. }
-    assert (F : forall bs0, zlen bs0 <= zlen bs ->
-      w * m_peak (snd (str_frags item mem (S (length bs0)) m0 None 0 bs0)) <= 2 * U * zlen bs + w * (3 * 65536 * U + 2)).
-    { intros bs0 Hl. apply str_frags_peak; cbn [m0 m_live m_peak bsz]; try lia.
+    assert (F : forall it : list bool -> option (A * list bool),
+      (forall bs a r, it bs = Some (a, r) -> zlen r + w <= zlen bs) -> forall bs0, zlen bs0 <= zlen bs ->
+      w * m_peak (snd (str_frags it mem (S (length bs0)) m0 None 0 bs0)) <= 2 * U * zlen bs + w * (3 * 65536 * U + 2)).
+    { intros it Hit bs0 Hl. apply (str_frags_peak it mem w U Hw HU Hit Hmem); cbn [m0 m_live m_peak bsz]; try lia.
       - pose proof (ZB bs). assert (0 <= w * (3 * 65536 * U + 2)) by (apply Z.mul_nonneg_nonneg; lia). lia.
       - assert (U * zlen bs0 <= U * zlen bs) by (apply Z.mul_le_mono_nonneg_l; lia).
         replace (2 * U * zlen bs0) with (2 * (U * zlen bs0)) by ring.
@@ -254,13 +269,13 @@ Section StrBound.
           assert (w * Z.max (Z.max 0 (0 + (mem h + 1))) (0 + (mem h + 1) + (mem (n + lo) + 1)) <= w * (3 * 65536 * U + 2))
             by (apply Z.mul_le_mono_nonneg_l; lia). lia. }
         destruct (get_items item (Z.to_nat (n + lo)) r) as [[x r']|]; exact K2.
-      - destruct hi as [h|]; apply F; exact Hl. }
+      - destruct hi as [h|]; apply (F item Hitem); exact Hl. }
     destruct s as [lo hi ext]. unfold str_dec. destruct ext.
     - destruct bs as [|b r].
       + cbn [snd m0 m_peak]. pose proof (ZB (@nil bool)).
         assert (0 <= w * (3 * 65536 * U + 2)) by (apply Z.mul_nonneg_nonneg; lia). lia.
       + destruct b.
-        * apply F. rewrite zlen_cons. lia.
+        * apply (F item_x Hitem_x). rewrite zlen_cons. lia.
         * apply R; [destruct hi; exact Hs|rewrite zlen_cons; lia].
     - apply R; [destruct hi; exact Hs|lia].
   Qed.
@@ -282,10 +297,10 @@ Proof.
 Qed.
 
 Theorem octet_string_heap_bound chk s bs : scon_ok s ->
-  8 * m_peak (snd (str_dec get_octet (mem_of 1) chk PerFragment s bs)) <= 2 * zlen bs + 8 * 196610.
+  8 * m_peak (snd (str_dec get_octet get_octet (mem_of 1) chk PerFragment s bs)) <= 2 * zlen bs + 8 * 196610.
 Proof.
   intros Hs.
-  pose proof (str_heap_frag_bound get_octet (mem_of 1) 8 1 ltac:(lia) ltac:(lia) get_octet_progress
+  pose proof (str_heap_frag_bound get_octet get_octet (mem_of 1) 8 1 ltac:(lia) ltac:(lia) get_octet_progress get_octet_progress
                 (fun n Hn => mem_of_bound 1 ltac:(lia) n Hn) chk s bs Hs) as H.
   lia.
 Qed.
@@ -293,13 +308,13 @@ Qed.
 (* ---------------- the refuted policy ---------------- *)
 Section StrRefuted.
   Context {A : Type}.
-  Variable item : list bool -> option (A * list bool).
+  Variables item item_x : list bool -> option (A * list bool).
   Variable mem : Z -> Z.
 
   (* whatever the input: a range constraint with ub >= 64K makes PreallocUb hold mem ub + 1 bytes *)
   Theorem str_prealloc_peak chk lo h bs : 65536 <= h ->
-    mem h + 1 <= m_peak (snd (str_dec item mem chk PreallocUb (SCon lo (Some h) false) bs)) /\
-    mem h + 1 <= m_maxreq (snd (str_dec item mem chk PreallocUb (SCon lo (Some h) false) bs)).
+    mem h + 1 <= m_peak (snd (str_dec item item_x mem chk PreallocUb (SCon lo (Some h) false) bs)) /\
+    mem h + 1 <= m_maxreq (snd (str_dec item item_x mem chk PreallocUb (SCon lo (Some h) false) bs)).
   Proof.
     intros Hh. unfold str_dec, str_root. cbn [constrained].
     replace (h <? 65536) with false by lia.
@@ -324,11 +339,11 @@ End StrRefuted.
    (the EMPTY input) that make the pre-sizing decoder exceed c*n + K *)
 Theorem str_heap_prealloc_refuted : forall c K : Z,
   exists s bs, scon_ok s /\
-    c * zlen bs + K < m_peak (snd (str_dec get_octet (mem_of 1) false PreallocUb s bs)).
+    c * zlen bs + K < m_peak (snd (str_dec get_octet get_octet (mem_of 1) false PreallocUb s bs)).
 Proof.
   intros c K. exists (SCon 0 (Some (Z.max 65536 K)) false), [].
   split; [cbn; lia|].
-  pose proof (str_prealloc_peak get_octet (mem_of 1) false 0 (Z.max 65536 K) [] ltac:(lia)) as [H _].
+  pose proof (str_prealloc_peak get_octet get_octet (mem_of 1) false 0 (Z.max 65536 K) [] ltac:(lia)) as [H _].
   assert (mem_of 1 (Z.max 65536 K) = Z.max 65536 K) by (unfold mem_of; cbn [Z.eqb]; lia).
   cbn [zlen length Z.of_nat] in *. lia.
 Qed.
@@ -341,6 +356,8 @@ Section LstBound.
   Hypothesis Hesz : 0 <= esz.
   (* an element decoder never gives input back; it MAY consume nothing (NULL, INTEGER (5..5), SEQUENCE {}) *)
   Hypothesis Hitem : forall bs a r, item bs = Some (a, r) -> zlen r <= zlen bs.
+  Variable nobit : list bool -> list bool -> bool.
+  Hypothesis Hnobit : forall bs a r, item bs = Some (a, r) -> nobit bs r = (length r =? length bs)%nat.
 
   Definition lst_inv (m : meter) (l : lst) : Prop :=
     0 <= l_count l <= l_cap l /\ l_cap l <= Z.max 4 (2 * l_count l) /\ (l_count l = 0 -> l_cap l = 0) /\
@@ -364,7 +381,7 @@ Section LstBound.
      except the one on which the guard fires *)
   Lemma lst_items_count nel : forall k m l bs,
     lst_inv m l -> Z.of_nat k <= Z.max 0 nel ->
-    let '(res, (m', l')) := lst_items item esz true nel k m l bs in
+    let '(res, (m', l')) := lst_items item esz true nobit nel k m l bs in
     lst_inv m' l' /\
     l_count l' + rest_of res <=
       l_count l + zlen bs + (if 200 <? nel then (match res with None => 1 | Some _ => 0 end) else Z.of_nat k).
@@ -372,14 +389,14 @@ Section LstBound.
     induction k as [|k IH]; intros m l bs Hinv Hk; cbn [lst_items].
     - split; [exact Hinv|]. cbn [rest_of]. destruct (200 <? nel); lia.
     - destruct (item bs) as [[a r]|] eqn:EI.
-      + apply Hitem in EI.
+      + pose proof (Hnobit _ _ _ EI) as NB. apply Hitem in EI.
         pose proof (set_add_inv m l Hinv) as SA.
         destruct (set_add (m_malloc m esz) l) as [m2 l2]. destruct SA as [I2 C2].
-        destruct (true && (length r =? length bs)%nat && (200 <? nel)) eqn:EG.
+        rewrite NB. destruct (true && (length r =? length bs)%nat && (200 <? nel)) eqn:EG.
         * split; [exact I2|]. cbn [rest_of]. assert (200 <? nel = true) by lia. rewrite H.
           pose proof (zlen_nonneg bs). lia.
         * specialize (IH m2 l2 r I2 ltac:(lia)).
-          destruct (lst_items item esz true nel k m2 l2 r) as [[[x r']|] [m' l']]; destruct IH as [I3 C3];
+          destruct (lst_items item esz true nobit nel k m2 l2 r) as [[[x r']|] [m' l']]; destruct IH as [I3 C3];
             (split; [exact I3|]); cbn [rest_of] in *; unfold zlen in *;
             destruct (200 <? nel) eqn:E2; lia.
       + split; [exact Hinv|]. cbn [rest_of]. pose proof (zlen_nonneg bs). destruct (200 <? nel); lia.
@@ -387,7 +404,7 @@ Section LstBound.
 
   Lemma lst_frags_count : forall fuel m l bs,
     lst_inv m l ->
-    let '(res, (m', l')) := lst_frags item esz true fuel m l bs in
+    let '(res, (m', l')) := lst_frags item esz true nobit fuel m l bs in
     lst_inv m' l' /\ l_count l' <= l_count l + zlen bs + 201.
   Proof.
     induction fuel as [|f IH]; intros m l bs Hinv; cbn [lst_frags].
@@ -395,11 +412,11 @@ Section LstBound.
     - destruct (get_length bs) as [[[n more] r]|] eqn:EL.
       + apply get_length_facts in EL. destruct EL as [Hn [Hr Hm]].
         pose proof (lst_items_count n (Z.to_nat n) m l r Hinv ltac:(lia)) as LI.
-        destruct (lst_items item esz true n (Z.to_nat n) m l r) as [[[x r']|] [m1 l1]]; destruct LI as [I1 C1]; cbn [rest_of] in C1.
+        destruct (lst_items item esz true nobit n (Z.to_nat n) m l r) as [[[x r']|] [m1 l1]]; destruct LI as [I1 C1]; cbn [rest_of] in C1.
         * destruct more.
           -- specialize (Hm eq_refl). replace (200 <? n) with true in C1 by lia.
              specialize (IH m1 l1 r' I1).
-             destruct (lst_frags item esz true f m1 l1 r') as [[[y r'']|] [m2 l2]]; destruct IH as [I2 C2];
+             destruct (lst_frags item esz true nobit f m1 l1 r') as [[[y r'']|] [m2 l2]]; destruct IH as [I2 C2];
                (split; [exact I2|lia]).
           -- split; [exact I1|]. pose proof (zlen_nonneg r'). destruct (200 <? n) eqn:E2; lia.
         * split; [exact I1|]. destruct (200 <? n) eqn:E2; lia.
@@ -412,7 +429,7 @@ Section LstBound.
   (* at most |input bits| + 201 elements are ever held, for EVERY SIZE constraint, and the
      heap (elements + pointer array, old array included while it is being doubled) follows *)
   Theorem lst_heap_bound chk s bs :
-    let ml := snd (lst_dec item esz true chk PerFragment s bs) in
+    let ml := snd (lst_dec item esz true nobit chk PerFragment s bs) in
     l_count (snd ml) <= zlen bs + 201 /\
     m_peak (fst ml) <= (esz + 24) * (zlen bs + 201) + 32.
   Proof.
@@ -420,13 +437,13 @@ Section LstBound.
               l_count l <= zlen bs + 201 /\ m_peak m <= (esz + 24) * (zlen bs + 201) + 32).
     { intros m l (Hc & _ & _ & _ & Hp) Hle. split; [exact Hle|]. nia. }
     assert (F : forall bs0, zlen bs0 <= zlen bs ->
-      let ml := snd (lst_frags item esz true (S (length bs0)) m0 l0 bs0) in
+      let ml := snd (lst_frags item esz true nobit (S (length bs0)) m0 l0 bs0) in
       l_count (snd ml) <= zlen bs + 201 /\ m_peak (fst ml) <= (esz + 24) * (zlen bs + 201) + 32).
     { intros bs0 Hl. pose proof (lst_frags_count (S (length bs0)) m0 l0 bs0 lst_inv0) as H.
-      destruct (lst_frags item esz true (S (length bs0)) m0 l0 bs0) as [res [m' l']]. destruct H as [I C].
+      destruct (lst_frags item esz true nobit (S (length bs0)) m0 l0 bs0) as [res [m' l']]. destruct H as [I C].
       cbn [snd fst]. apply G; [exact I|]. cbn [l0 l_count] in C. lia. }
     assert (R : forall lo hi bs0, zlen bs0 <= zlen bs ->
-      let ml := snd (lst_root item esz true chk PerFragment lo hi m0 bs0) in
+      let ml := snd (lst_root item esz true nobit chk PerFragment lo hi m0 bs0) in
       l_count (snd ml) <= zlen bs + 201 /\ m_peak (fst ml) <= (esz + 24) * (zlen bs + 201) + 32).
     { intros lo hi bs0 Hl. unfold lst_root. pose proof (zlen_nonneg bs) as Zb. destruct (constrained hi).
       - destruct hi as [h|]; [|cbn [snd fst]; apply (G m0 l0 lst_inv0); cbn; lia].
@@ -435,7 +452,7 @@ Section LstBound.
         destruct (chk && negb (n <=? h - lo)); [cbn [snd fst]; apply (G m0 l0 lst_inv0); cbn; lia|].
         apply get_bits_len in EG. destruct EG as [Er _].
         pose proof (lst_items_count (n + lo) (Z.to_nat (n + lo)) m0 l0 r lst_inv0 ltac:(lia)) as LI.
-        destruct (lst_items item esz true (n + lo) (Z.to_nat (n + lo)) m0 l0 r) as [res [m' l']]. destruct LI as [I C].
+        destruct (lst_items item esz true nobit (n + lo) (Z.to_nat (n + lo)) m0 l0 r) as [res [m' l']]. destruct LI as [I C].
         cbn [snd fst]. apply G; [exact I|]. cbn [l0 l_count] in C.
         assert (0 <= rest_of res) by (destruct res as [[x r']|]; cbn; [apply zlen_nonneg|lia]).
         assert (0 <= Z.of_nat (range_bits (h - lo + 1))) by lia.
@@ -455,7 +472,7 @@ End LstBound.
 Theorem lst_prealloc_refuted : forall c K : Z,
   exists s bs, c * zlen bs + K <
     m_peak (fst (snd (lst_dec (fun bs0 : list bool => match bs0 with b :: r => Some (b, r) | [] => None end)
-                             4 true false PreallocUb s bs))).
+                             4 true nobit_len false PreallocUb s bs))).
 Proof.
   intros c K. exists (SCon 0 (Some (Z.max 65536 K)) false), [].
   unfold lst_dec, lst_root. cbn [constrained].
@@ -467,5 +484,108 @@ Qed.
    (theorem heap_linear_uper_refuted of DepthProofs.v, here on the instrumented decoder) *)
 Theorem lst_no_guard_refuted :
   exists bs, zlen bs = 16 /\
-    l_count (snd (snd (lst_dec (fun bs0 : list bool => Some (tt, bs0)) 4 false false PerFragment (SCon 0 None false) bs))) = 16383.
+    l_count (snd (snd (lst_dec (fun bs0 : list bool => Some (tt, bs0)) 4 false nobit_len false PerFragment (SCon 0 None false) bs))) = 16383.
 Proof. exists (bytes_bits [191; 255]). split; vm_compute; reflexivity. Qed.
+
+(* ---------------- lists: erasure (no guard) ---------------- *)
+Section LstErase.
+  Context {A : Type}.
+  Variable item : list bool -> option (A * list bool).
+  Variable esz : Z.
+  Variable nobit : list bool -> list bool -> bool.
+
+  Lemma lst_items_erase nel : forall k m l bs,
+    fst (lst_items item esz false nobit nel k m l bs) = dec_items item k bs.
+  Proof.
+    induction k as [|k IH]; intros m l bs; cbn [lst_items dec_items]; [reflexivity|].
+    destruct (item bs) as [[a r]|]; [|reflexivity].
+    destruct (set_add (m_malloc m esz) l) as [m2 l2]. cbn [andb].
+    specialize (IH m2 l2 r).
+    destruct (lst_items item esz false nobit nel k m2 l2 r) as [[[x r']|] ml]; cbn [fst] in IH; rewrite <- IH; reflexivity.
+  Qed.
+
+  Lemma lst_frags_erase : forall fuel m l bs,
+    fst (lst_frags item esz false nobit fuel m l bs) = get_counted item fuel bs.
+  Proof.
+    induction fuel as [|f IH]; intros m l bs; cbn [lst_frags get_counted]; [reflexivity|].
+    destruct (get_length bs) as [[[n more] r]|]; [|reflexivity].
+    pose proof (lst_items_erase n (Z.to_nat n) m l r) as E. unfold get_items.
+    destruct (lst_items item esz false nobit n (Z.to_nat n) m l r) as [[[x r']|] [m1 l1]]; cbn [fst] in E; rewrite <- E; [|reflexivity].
+    destruct more; [|reflexivity].
+    specialize (IH m1 l1 r').
+    destruct (lst_frags item esz false nobit f m1 l1 r') as [[[y r'']|] ml]; cbn [fst] in IH; rewrite <- IH; reflexivity.
+  Qed.
+
+  Theorem lst_dec_erase pol s bs : fst (lst_dec item esz false nobit true pol s bs) = get_sized item s bs.
+  Proof.
+    assert (R : forall lo hi m bs0, fst (lst_root item esz false nobit true pol lo hi m bs0) =
+      (if constrained hi then
+         match hi with
+         | Some h => match get_bits (range_bits (h - lo + 1)) bs0 with
+                     | Some (n, r) => if n <=? h - lo then get_items item (Z.to_nat (n + lo)) r else None
+                     | None => None
+                     end
+         | None => None
+         end
+       else get_counted item (S (length bs0)) bs0)).
+    { intros lo hi m bs0. unfold lst_root. destruct (constrained hi) eqn:EC.
+      - destruct hi as [h|]; [|reflexivity].
+        destruct (get_bits (range_bits (h - lo + 1)) bs0) as [[n r]|]; [|reflexivity].
+        destruct (n <=? h - lo) eqn:EN; cbn [andb negb]; [|reflexivity].
+        apply lst_items_erase.
+      - destruct pol; destruct hi as [h|]; apply lst_frags_erase. }
+    destruct s as [lo hi ext]. unfold lst_dec, get_sized.
+    destruct ext.
+    - destruct bs as [|b r]; [reflexivity|]. destruct b.
+      + apply lst_frags_erase.
+      + rewrite R. unfold constrained. reflexivity.
+    - rewrite R. unfold constrained. reflexivity.
+  Qed.
+End LstErase.
+
+(* ---------------- the front ends the check runs ---------------- *)
+Lemma get_unit_len ub bs a r : get_unit ub bs = Some (a, r) -> zlen r + Z.of_nat ub = zlen bs.
+Proof. unfold get_unit. intros H. apply get_bits_len in H. lia. Qed.
+
+Lemma c15_str_snd pol ub bpc s bs :
+  snd (c15_str pol ub bpc s bs) =
+  snd (str_dec (get_unit ub) (get_unit (if bpc =? 0 then ub else Z.to_nat (8 * bpc))) (mem_of bpc) false pol s bs).
+Proof.
+  unfold c15_str. cbv zeta.
+  destruct (str_dec (get_unit ub) _ (mem_of bpc) false pol s bs) as [[[x r]|] m]; reflexivity.
+Qed.
+
+(* strings, as run by the check: w = a lower bound of the bits per unit in either branch *)
+Theorem c15_str_heap_bound (ub : nat) (bpc w : Z) s bs :
+  1 <= w -> w <= Z.of_nat ub -> 0 <= bpc -> w <= 8 * Z.max 1 bpc -> scon_ok s ->
+  w * m_peak (snd (c15_str PerFragment ub bpc s bs)) <= 2 * Z.max 1 bpc * zlen bs + w * (3 * 65536 * Z.max 1 bpc + 2).
+Proof.
+  intros Hw Hub Hb Hx Hs. rewrite c15_str_snd.
+  apply (str_heap_frag_bound (get_unit ub) (get_unit (if bpc =? 0 then ub else Z.to_nat (8 * bpc))) (mem_of bpc) w (Z.max 1 bpc)); try lia.
+  - intros bs0 a r H. apply get_unit_len in H. lia.
+  - intros bs0 a r H. apply get_unit_len in H. destruct (bpc =? 0) eqn:E; [lia|].
+    rewrite Z2Nat.id in H by lia. lia.
+  - intros n Hn. apply mem_of_bound; assumption.
+  - exact Hs.
+Qed.
+
+Theorem c15_str_prealloc_peak (ub : nat) (bpc lo h : Z) bs : 65536 <= h ->
+  mem_of bpc h + 1 <= m_peak (snd (c15_str PreallocUb ub bpc (SCon lo (Some h) false) bs)) /\
+  mem_of bpc h + 1 <= m_maxreq (snd (c15_str PreallocUb ub bpc (SCon lo (Some h) false) bs)).
+Proof. intros Hh. rewrite c15_str_snd. apply str_prealloc_peak. exact Hh. Qed.
+
+Lemma c15_lst_snd pol ub esz s bs :
+  snd (c15_lst pol ub esz s bs) = snd (lst_dec (get_unit ub) esz true (fun _ _ => Nat.eqb ub 0) false pol s bs).
+Proof.
+  unfold c15_lst. destruct (lst_dec (get_unit ub) esz true _ false pol s bs) as [[[x r]|] ml]; reflexivity.
+Qed.
+
+Theorem c15_lst_heap_bound (ub : nat) (esz : Z) s bs : 0 <= esz ->
+  let ml := snd (c15_lst PerFragment ub esz s bs) in
+  l_count (snd ml) <= zlen bs + 201 /\ m_peak (fst ml) <= (esz + 24) * (zlen bs + 201) + 32.
+Proof.
+  intros He. cbv zeta. rewrite c15_lst_snd.
+  apply (lst_heap_bound (get_unit ub) esz He).
+  - intros bs0 a r H. apply get_unit_len in H. lia.
+  - intros bs0 a r H. apply get_unit_len in H. unfold zlen in H. lia.
+Qed.
